@@ -243,3 +243,7 @@ impl Spawner for NtsPoolSpawner {
         "nts-pool"
     }
 }
+
+#[cfg(all(test, pendulum_project_ntpd_rs_verif))]
+#[path = "/verif/harness/ntpd/hook_daemon__spawn__nts_pool.rs"]
+mod verif_hook;
